@@ -36,13 +36,13 @@ type Config struct {
 
 // Stats are counted when something actually fired.
 type Stats struct {
-	Gets, Puts, Hits, Misses        int
-	DroppedPuts, ForcedMisses       int
-	GCClears, ObjectsClearedByGC    int
-	DoublePuts                      int // same object stored twice (probe, not a violation)
-	RecycledAcrossPools             int // object offered to a pool that did not create it (probe)
-	MaxOccupancy                    int
-	Pools                           int
+	Gets, Puts, Hits, Misses     int
+	DroppedPuts, ForcedMisses    int
+	GCClears, ObjectsClearedByGC int
+	DoublePuts                   int // same object stored twice (probe, not a violation)
+	RecycledAcrossPools          int // object offered to a pool that did not create it (probe)
+	MaxOccupancy                 int
+	Pools                        int
 }
 
 type poolState struct {
